@@ -29,6 +29,7 @@ import (
 	"go.opentelemetry.io/otel"
 	"golang.org/x/sync/singleflight"
 
+	"chainguard.dev/apko/internal/verifhook"
 	"chainguard.dev/apko/pkg/paths"
 )
 
@@ -438,6 +439,7 @@ func (t *cacheTransport) retrieveAndSaveFile(ctx context.Context, request *http.
 	// and if this fails this should surface in other ways
 	// (e.g. permission denied trying to read the file).
 	_ = tmp.Chmod(os.FileMode(0664))
+	verifhook.Point("index.tmp " + tmp.Name())
 
 	if err := func() error {
 		defer tmp.Close()
@@ -452,9 +454,11 @@ func (t *cacheTransport) retrieveAndSaveFile(ctx context.Context, request *http.
 
 	// Now that we have the file has been written, rename to atomically populate
 	// the cache
+	verifhook.Point("index.body " + tmp.Name())
 	if err := paths.AdvertiseCachedFile(tmp.Name(), cacheFile); err != nil {
 		return "", err
 	}
+	verifhook.Point("index.adv " + cacheFile)
 	return cacheFile, nil
 }
 
